@@ -177,9 +177,11 @@ def check_string(s, res, full, dfas=None):
 
 # ------------------------------------------------------------------ automata part
 
-def build_automata():
+def build_automata(variant=None):
     load, inst, pristine = setup()
     table = inst.yaml_implicit_resolvers
+    if variant is not None:
+        table, pristine = variant
     rxs = []        # distinct regex objects
 
     def idx(rx):
@@ -198,9 +200,9 @@ def build_automata():
     return rxs, dfas, syms, t_impl, t_pris, (i_float, i_int, i_bool, i_dc, i_np)
 
 
-def run_automata(res):
+def run_automata(res, variant=None, vname=''):
     try:
-        rxs, dfas, syms, t_impl, t_pris, (i_float, i_int, i_bool, i_dc, i_np) = build_automata()
+        rxs, dfas, syms, t_impl, t_pris, (i_float, i_int, i_bool, i_dc, i_np) = build_automata(variant)
     except automata.Unsupported as e:
         res.extra['all_lengths'] = 0
         res.hist['automata-unsupported:' + str(e)[:60]] += 1
@@ -245,12 +247,12 @@ def run_automata(res):
         if impl != want and not (dc and impl in (P + 'float', P + 'str')) and not dfas[i_np].acc[S[i_np]]:
             s = ''.join(automata.rep_char(syms[j]) for j in w)
             # confirm on the real resolver before reporting
-            got = setup()[1].resolve(yaml.ScalarNode, s, (True, False))
+            got = table_resolve(variant[0], s) if variant is not None else setup()[1].resolve(yaml.ScalarNode, s, (True, False))
             if got != impl:
                 raise core.HarnessError('automaton says %r resolves to %s, Loader.resolve says %s' % (s, impl, got))
-            res.violation('C09:lang:%s-as-%s' % (want[len(P):], impl[len(P):]),
-                          'all-lengths automata: shortest witness %r resolves to %s, expected %s' % (s, impl, want),
-                          {'kind': 'string', 'text': s})
+            res.violation('C09:lang%s:%s-as-%s' % (vname, want[len(P):], impl[len(P):]),
+                          'all-lengths automata%s: shortest witness %r resolves to %s, expected %s' % (vname, s, impl, want),
+                          {'kind': 'variant', 'variant': vname[1:], 'text': s} if variant is not None else {'kind': 'string', 'text': s})
         for j in range(len(syms)):
             res.transitions += 1
             T = tuple(d.tr[s][j] for d, s in zip(dfas, S))
@@ -259,6 +261,9 @@ def run_automata(res):
                 seen[(f2, T)] = w + (j,)
                 q.append((f2, T))
     res.states += nstates
+    if variant is not None:
+        res.hist['automata-variant' + vname] += nstates
+        return None
     res.extra['all_lengths'] = 1
     res.extra['automata'] = {'regexes': len(rxs), 'symbol_classes': len(syms),
                              'dfa_states_max': max(len(d.tr) for d in dfas),
@@ -267,11 +272,81 @@ def run_automata(res):
     return list(zip(rxs, dfas))
 
 
+# ------------------------------------------------------------------ loader variants (each in a fresh interpreter)
+
+VARIANTS = ['deprecated-subclass', 'subclass-own-resolver-first', 'function-own-resolver', 'function-own-resolver-after-use',
+            'second-function-after-own-resolver']
+_ZZ = re.compile(r'^(?:zzz)$')
+
+
+def make_variant(name):
+    """build a loader the way a user may and return (its live resolver table, the expected non-bool/float table)"""
+    from typing import Any
+    import yatiml.loader as yl
+    extra = False
+    if name == 'deprecated-subclass':
+        class L(yl.Loader):
+            pass
+        yl.set_document_type(L, Any)
+        cls = L
+    elif name == 'subclass-own-resolver-first':
+        class L(yl.Loader):
+            pass
+        L.add_implicit_resolver('!zz', _ZZ, ['z'])
+        yl.set_document_type(L, Any)
+        cls, extra = L, True
+    elif name == 'function-own-resolver':
+        f = yatiml.load_function()
+        f.loader.add_implicit_resolver('!zz', _ZZ, ['z'])
+        cls, extra = f.loader, True
+    elif name == 'function-own-resolver-after-use':
+        f = yatiml.load_function()
+        f('1.5')
+        f.loader.add_implicit_resolver('!zz', _ZZ, ['z'])
+        cls, extra = f.loader, True
+    else:
+        f = yatiml.load_function()
+        f.loader.add_implicit_resolver('!zz', _ZZ, ['z'])
+        f('yes')
+        cls = yatiml.load_function(int).loader
+    inst = cls('')
+    pristine = {k: [(t, r) for t, r in v if t not in (P + 'float', P + 'bool')]
+                for k, v in yaml.SafeLoader.yaml_implicit_resolvers.items()}
+    if extra:
+        pristine.setdefault('z', []).append(('!zz', _ZZ))
+    return inst.yaml_implicit_resolvers, pristine
+
+
+def variant_main(name):
+    import json
+    res = core.Result()
+    run_automata(res, make_variant(name), ':' + name)
+    print(json.dumps({'states': res.states, 'transitions': res.transitions,
+                      'violations': res.violations, 'hist': dict(res.hist)}))
+
+
+def run_variant(name, res):
+    import json
+    import subprocess
+    import sys
+    out = subprocess.run([sys.executable, '-c', 'from mc.props import C09; C09.variant_main(%r)' % name],
+                         stdout=subprocess.PIPE, stderr=subprocess.PIPE, text=True)
+    if out.returncode != 0:
+        raise core.HarnessError('variant %s failed: %s' % (name, out.stderr[-400:]))
+    d = json.loads(out.stdout.strip().splitlines()[-1])
+    res.states += d['states']
+    res.transitions += d['transitions']
+    res.hist.update(d['hist'])
+    for v in d['violations']:
+        res.violations.append(v)
+    res.traces += 1
+
+
 # ------------------------------------------------------------------ driver
 
 def units(tier):
     b = BOUNDS(tier)
-    out = [('automata',)]
+    out = [('automata',)] + [('variant', v) for v in VARIANTS]
     for name, alpha, L in (('num', NUM_ALPHA, b['num_maxlen']), ('word', WORD_ALPHA, b['word_maxlen']),
                            ('tf', TF_ALPHA, b['tf_maxlen'])):
         out.append((name, '', 1))       # strings of length <= 1
@@ -288,6 +363,9 @@ def run_unit(unit, tier):
     res = core.Result()
     if unit[0] == 'automata':
         run_automata(res)
+        return res
+    if unit[0] == 'variant':
+        run_variant(unit[1], res)
         return res
     if _DFAS is None:
         try:
@@ -317,6 +395,11 @@ def finish(total, tier):
 
 def replay(payload):
     res = core.Result()
+    if payload.get('kind') == 'variant':
+        run_variant(payload['variant'], res)
+        if res.violations:
+            return True, '; '.join(v['what'] for v in res.violations[:3])
+        return False, 'loader variant %s types plain scalars by the YAML 1.2 rules' % payload['variant']
     check_string(payload['text'], res, True, None)
     if res.violations:
         return True, '; '.join(v['what'] for v in res.violations)
